@@ -320,6 +320,7 @@ DEFAULT_TLS_SPEC = dict(
     after_sh=None,         # None | int: length of a message body following SH in the same record when sh_ext == none
     hs_secrets=True, ccs13=True, pad13=0, tickets=0, cert_len=300, ske=False,
     history=[[0, 20, 0], [1, 40, 0]],   # [dir (0 client, 1 server), plaintext length, padding amount]
+    false_start=None,      # [[len, pad], ...] client application records sent right after the client Finished (full handshake, <= TLS 1.2)
     close=0,               # bit 0: client ends with close_notify, bit 1: server does (after all application data of both directions)
     abort_after_ch=None,   # None | [is_server, level, desc]: the handshake is aborted by a plaintext alert right after the ClientHello
     rsa_label=False,       # key log gives "RSA <..>"?  (not used: needs encrypted pre-master id) kept False
@@ -474,6 +475,10 @@ class TlsConn:
             self._plain(False, 0x16, hs(16, rbytes(rnd, 130)), rv, "CKE")
             self._plain(False, 0x14, b"\x01", rv, "CCS")
             self._enc(False, cw.protect(0x16, self._fin(False, fin_len)), "FIN")
+            for ln, pad in sp.get("false_start") or []:
+                # TLS False Start (RFC 7918): the client sends application data right after its Finished, before the server's
+                # ChangeCipherSpec / Finished (and NewSessionTicket) arrive
+                self.app(False, rbytes(rnd, ln), pad)
             if sp["tickets"] and v != SSL30:
                 self._plain(True, 0x16, hs(4, rbytes(rnd, 40)), rv, "NST")
             self._plain(True, 0x14, b"\x01", rv, "CCS")
